@@ -51,6 +51,9 @@ fn allowed(field: &str, how: &str) -> &'static [&'static str] {
         ("cur_token_byte_offset", "assign") | ("cur_token_start", "assign") | ("cur_token_line", "assign") => &["start_token", "rollback"],
         ("checkpoint", "assign") => &["checkpoint", "clear_checkpoint"],
         ("checkpoint", "take") => &["rollback"],
+        // a field-restricted write (only `mode_stack_len` of the live checkpoint, which INV does not mention): the body of
+        // dispatch_macro_do is verified in U23 with INV as postcondition (lemma_ckpt_height_changed)
+        ("checkpoint", "as_mut") => &["dispatch_macro_do"],
         ("errors", "push") => &["emit_error", "emit_error_info"],
         ("errors", "truncate") => &["rollback"],
         _ => &[],
